@@ -6,6 +6,7 @@ mod helpers;
 mod cli;
 mod hist;
 mod nest;
+mod convert;
 
 use serde_json::{json, Value};
 use std::fs::File;
@@ -279,6 +280,7 @@ fn main() {
         "cli" => cli::cmd_cli(rest),
         "hist" => hist::cmd_hist(rest),
         "nest" => nest::cmd_nest(rest),
+        "convert-trace" => convert::cmd_convert(rest),
         "nest-child" => nest::cmd_child(rest),
         "plain" => {
             // plain <aj.ndjson>: print rule/data as plain JSON (debug aid)
